@@ -2,8 +2,8 @@ package main
 
 import (
 	"fmt"
-	"strings"
 	"go/types"
+	"strings"
 
 	"golang.org/x/tools/go/ssa"
 )
@@ -32,7 +32,7 @@ func runC14(r *Run) {
 			r.FailEdge(fn, short(w), EdgeSpec{Name: "fix-failed", Atom: nilAtom("iface(trillian/ctfe.leafChainBuilder).FixLogLeaf(*)"), Bad: "non", Want: wantStatus("500")})
 			for _, c := range CallsTo(fn, "iface(trillian/ctfe.leafChainBuilder).FixLogLeaf") {
 				r.ExpectArg(c, short(w)+":fix.service", 0, "p1.issuanceChainService")
-				r.ExpectArg(c, short(w)+":fix.leaf", 2, "iface(trillian.TrillianLogClient).*(*)#0.Leaf || iface(trillian.TrillianLogClient).*(*)#0.Leaves[(1 + it@*)]")
+				r.ExpectArg(c, short(w)+":fix.leaf", 2, "iface(trillian.TrillianLogClient).*(*)#0.Leaf || iface(trillian.TrillianLogClient).*(*)#0.Leaves[it@*]")
 			}
 		}
 	}
